@@ -17,16 +17,23 @@ def kani_unit(prop, unit, tier, seed, workdir):
     if os.path.exists(dst):
         shutil.rmtree(dst)
     shutil.copytree(src_crate, dst, ignore=shutil.ignore_patterns("target"))
-    # extraction of the original item text
-    cmd = [vdrv.EXTRACTOR, "--repo", vdrv.REPO, "--out", os.path.join(dst, "src", "extracted.rs")]
-    for sel in unit["raw"]:
-        cmd += ["--raw", sel]
-    r = vdrv.sh(cmd)
-    if r.returncode != 0:
-        raise vdrv.ToolFailure("kani extraction failed: " + r.stderr.strip())
+    # extraction of the original item text (dependency units check an assumption on the real
+    # dependency crate and extract nothing from /repo; the version is the one of /repo/Cargo.lock)
     ex = os.path.join(dst, "src", "extracted.rs")
-    txt = open(ex).read()
-    open(ex, "w").write(unit.get("prepend", "") + "\n" + txt)
+    if unit.get("raw"):
+        cmd = [vdrv.EXTRACTOR, "--repo", vdrv.REPO, "--out", ex]
+        for sel in unit["raw"]:
+            cmd += ["--raw", sel]
+        r = vdrv.sh(cmd)
+        if r.returncode != 0:
+            raise vdrv.ToolFailure("kani extraction failed: " + r.stderr.strip())
+        txt = open(ex).read()
+        open(ex, "w").write(unit.get("prepend", "") + "\n" + txt)
+    else:
+        open(ex, "w").write("// dependency unit: nothing is extracted from /repo\n")
+    lock = os.path.join(vdrv.REPO, "Cargo.lock")
+    if unit.get("use_repo_lock") and os.path.exists(lock):
+        shutil.copy(lock, os.path.join(dst, "Cargo.lock"))
     harnesses = unit["harnesses"]          # name -> {obligation, complete: bool, note}
     env = dict(os.environ, CARGO_NET_OFFLINE="true", CARGO_TARGET_DIR=os.path.join(vdrv.BUILD, "kani-target-" + unit["crate"]))
     cmdk = ["cargo", "kani"] + unit.get("kani_args", [])
